@@ -88,6 +88,12 @@ class ExprMixin:
                 return const(v)
             if _is_object_call(r[1]):
                 return ("sentinel", r[2].name + "." + name)
+            c = r[1]
+            if isinstance(c, ast.Call) and isinstance(c.func, ast.Name) and not c.keywords and c.args \
+                    and all(isinstance(a, ast.Constant) and isinstance(a.value, str) for a in c.args):
+                f = self.prog.resolve(r[2], c.func.id)
+                if f and f[0] == "ext" and f[1].split(".")[-1] == "attrgetter":
+                    return ("attrgetter", tuple(a.value for a in c.args))
             return ("global", r[2].name + "." + name)
         return None
 
@@ -337,6 +343,20 @@ class ExprMixin:
     def get_item(self, base, key, st, fx, node):
         if isinstance(base, tuple):
             if base[0] == "regtop":
+                if isinstance(key, tuple) and key[:1] == ("param",):
+                    # a registry read under an address handed in from outside (buildProtocol): the address may be new
+                    t = ("cmp", "in", key, base)
+                    known = st.facts.get(t)
+                    text = "%s in %s" % (show(key), show(base))
+                    if known is not True:
+                        s2 = st.fork()
+                        s2.facts[t] = False
+                        s2.conds = s2.conds + (Cond(t, False, fx.func.file, getattr(node, "lineno", 0), text),)
+                        yield "raise", self.exc(s2, "KeyError", key), s2
+                        if known is False:
+                            return
+                        st.facts[t] = True
+                        st.conds = st.conds + (Cond(t, True, fx.func.file, getattr(node, "lineno", 0), text),)
                 self.emit(st, fx, "REGADDR", node, reg=base[1], key=key)
                 yield "ok", ("reg", base[1], key), st
                 return
